@@ -160,4 +160,14 @@ theorem C12_trunc_fails_non_ascii :
     cols (pad s 3 .left true) = 4 ∧ cols (pad s 3 .right true) = 4 ∧ cols (pad s 3 .center true) = 5 := by
   decide
 
+/-- **`{wide_msg}` is a truncating field as wide as the rest of the line leaves** (`WideElement::Message::expand`: the field
+is `PaddedStringDisplay { width: left, truncate: true }` with `left = terminal width − columns of the rest`): for one-byte,
+one-column content it occupies exactly the columns left, so that rest + field = terminal width whenever the rest fits
+(before the trailing blanks of a last field are trimmed) -/
+theorem C12_wide_msg_fills_the_line (s : List G) (hp : Plain s) (W rest : Nat) (align : Align) (hfit : rest ≤ W) :
+    rest + cols (pad s (W - rest) align true) = W := by
+  by_cases h : cols s ≤ W - rest
+  · rw [(C12_pad s (W - rest) align true h).1]; omega
+  · rw [(C12_trunc_ascii_partial s hp (W - rest) align (by omega)).2]; omega
+
 end IndicatifModel.Pad
